@@ -19,7 +19,10 @@ import atexit  # noqa: E402
 import shutil  # noqa: E402
 atexit.register(shutil.rmtree, TMP, True)
 N = 6
-with open(os.path.join(TMP, "verifmods.py"), "w") as f:
+# the module lives inside a package: references to it (`verifpkg.mods:Comp3`) contain a dot
+os.makedirs(os.path.join(TMP, "verifpkg"))
+open(os.path.join(TMP, "verifpkg", "__init__.py"), "w").close()
+with open(os.path.join(TMP, "verifpkg", "mods.py"), "w") as f:
     f.write('''
 from asphalt.core import Component, add_resource, add_resource_factory, current_context
 TABLE = {}
@@ -69,13 +72,13 @@ os.makedirs(os.path.join(TMP, "verifmods-0.0.dist-info"))
 with open(os.path.join(TMP, "verifmods-0.0.dist-info", "METADATA"), "w") as f:
     f.write("Metadata-Version: 2.1\nName: verifmods\nVersion: 0.0\n")
 with open(os.path.join(TMP, "verifmods-0.0.dist-info", "entry_points.txt"), "w") as f:
-    f.write("[asphalt.components]\n" + "".join(f"comp{k} = verifmods:Comp{k}\n" for k in range(N))
-            + "notcomp = verifmods:NotAComponent\n")
+    f.write("[asphalt.components]\n" + "".join(f"comp{k} = verifpkg.mods:Comp{k}\n" for k in range(N))
+            + "notcomp = verifpkg.mods:NotAComponent\n")
 sys.path.insert(0, TMP)
 
 import anyio  # noqa: E402
 from guard import guarded_run  # noqa: E402
-import verifmods  # noqa: E402
+from verifpkg import mods as verifmods  # noqa: E402
 from asphalt.core import Context, start_component  # noqa: E402
 
 
